@@ -138,7 +138,7 @@ func policies(podsTo, nodesTo *e2e.Upstream) []proxyv1alpha1.DispatchPolicy {
 }
 
 func waitReady(ci *clusters.ClusterInfo, eps ...string) bool {
-	deadline := time.Now().Add(5 * time.Second)
+	deadline := time.Now().Add(20 * time.Second)
 	for time.Now().Before(deadline) {
 		ok := true
 		for _, e := range eps {
@@ -191,7 +191,7 @@ func scenario(c *ev.Check, removal, phase string) {
 	// bystanders
 	byA2, err1 := openStream(r, "a", "/api/v1/nodes?watch=true")
 	byB, err2 := openStream(r, "b", "/api/v1/pods?watch=true")
-	if err1 != nil || err2 != nil || !byA2.nextChunk(5*time.Second) || !byB.nextChunk(5*time.Second) {
+	if err1 != nil || err2 != nil || !byA2.nextChunk(20*time.Second) || !byB.nextChunk(20*time.Second) {
 		c.EngineError(label + ": bystander streams could not be opened")
 		return
 	}
@@ -204,7 +204,7 @@ func scenario(c *ev.Check, removal, phase string) {
 			_, _, err := r.Do("GET", "a", "/api/v1/namespaces/ns/pods/slow", nil, nil)
 			victimDone <- err
 		}()
-		deadline := time.Now().Add(5 * time.Second)
+		deadline := time.Now().Add(20 * time.Second)
 		for time.Now().Before(deadline) {
 			g1.mu.Lock()
 			n := len(g1.ctxDone)
@@ -217,7 +217,7 @@ func scenario(c *ev.Check, removal, phase string) {
 	case "streaming":
 		var err error
 		victim, err = openStream(r, "a", "/api/v1/pods?watch=true")
-		if err != nil || !victim.nextChunk(5*time.Second) {
+		if err != nil || !victim.nextChunk(20*time.Second) {
 			c.EngineError(label + ": the victim stream could not be opened")
 			return
 		}
@@ -325,7 +325,7 @@ func scenario(c *ev.Check, removal, phase string) {
 	}
 	// (4) bystanders
 	gb.next <- struct{}{}
-	if !byB.nextChunk(5 * time.Second) {
+	if !byB.nextChunk(15 * time.Second) {
 		viol("other-cluster-stream-broken", "the watch on the other cluster did not receive its next chunk")
 	}
 	if resp, _, err := r.Do("GET", "b", "/api/v1/pods", nil, nil); err != nil || resp.StatusCode != 200 {
@@ -337,7 +337,7 @@ func scenario(c *ev.Check, removal, phase string) {
 		}
 	} else {
 		g2.next <- struct{}{}
-		if !byA2.nextChunk(5 * time.Second) {
+		if !byA2.nextChunk(15 * time.Second) {
 			viol("same-cluster-stream-broken", "the watch on the cluster's other endpoint did not receive its next chunk after e1 was removed")
 		}
 	}
@@ -432,7 +432,7 @@ func lifecycle(c *ev.Check, life, removal string) {
 				return
 			}
 			m := a1.ProbeCount()
-			deadline := time.Now().Add(5 * time.Second)
+			deadline := time.Now().Add(20 * time.Second)
 			for a1.ProbeCount() < m+3 && time.Now().Before(deadline) {
 				time.Sleep(5 * time.Millisecond)
 			}
@@ -494,12 +494,12 @@ func lifecycle(c *ev.Check, life, removal string) {
 			viol("remaining-endpoint-affected", "6 new requests after the removal got %v", codes)
 		}
 		if removal == "remove endpoint e1" {
-			deadline := time.Now().Add(5 * time.Second)
+			deadline := time.Now().Add(20 * time.Second)
 			for a2.ProbeCount() == mark2 && time.Now().Before(deadline) {
 				time.Sleep(5 * time.Millisecond)
 			}
 			if a2.ProbeCount() == mark2 {
-				viol("remaining-endpoint-not-probed", "the endpoint that stays received no health probe within 5 s after e1 was removed (its loop ticks every %v)", probeInterval)
+				viol("remaining-endpoint-not-probed", "the endpoint that stays received no health probe within 20 s after e1 was removed (its loop ticks every %v)", probeInterval)
 			}
 		}
 	} else if codes[503] != 6 {
@@ -514,7 +514,7 @@ func main() {
 	c := ev.Start("C15", "fault_enumeration")
 	c.Assume = []string{
 		"real UpstreamClusterController (harness as informer and worker) behind the real proxy handler chain over loopback HTTP/1.1, real health probes against stub upstreams; requests are pinned to endpoints by policy subsets",
-		"exhaustive over (removal kind x victim request phase) with bystanders present, NOT over thread schedules; 'promptly' = within 10 s, 'next chunk' = within 5 s (generous: only a context cancellation / one write is awaited)",
+		"exhaustive over (removal kind x victim request phase) with bystanders present, NOT over thread schedules; 'promptly' = within 10 s, 'next chunk' = within 15 s (generous: only a context cancellation / one write is awaited)",
 		"'health probing stops' is decided twice: on the removed endpoint's context being cancelled, and (lifecycle scenarios) on the probes that actually arrive at the stub upstream in the 600 ms after the removal with 10 ms probe loops: more than 3 arrivals = not stopped (a cancelled loop can deliver at most the probe in flight, the buffered token and one racing tick, whatever the timing; a live loop delivers about 60)",
 	}
 	removals := []string{"delete cluster", "remove endpoint e1", "delete and re-create cluster"}
